@@ -96,7 +96,7 @@ def mani_line(body):
 class Session:
     def __init__(self, exe, root, opts):
         self.p = subprocess.Popen([exe, "session", root] + opts, stdin=subprocess.PIPE, stdout=subprocess.PIPE,
-                                  stderr=subprocess.DEVNULL, bufsize=0)
+                                  stderr=(open(os.environ["C04_LOUD"], "ab") if os.environ.get("C04_LOUD") else subprocess.DEVNULL), bufsize=0)
         self.buf = b""
         self.threads = []
         ln = self.readline(120)
